@@ -21,8 +21,8 @@ sys.path.insert(0, os.path.dirname(os.path.dirname(os.path.abspath(__file__))))
 import common as C  # noqa: E402
 
 GEN = ['Effects']
-PROPS = ['FinVerif.Props.C18a', 'FinVerif.Props.C18b']
-DRIVERS = []
+PROPS = ['FinVerif.Props.C18a', 'FinVerif.Props.C18b', 'FinVerif.Props.C18c', 'FinVerif.Props.C18d']
+DRIVERS = ['FinVerif.Driver.C18']
 HIST = os.path.join(os.path.dirname(os.path.dirname(os.path.abspath(__file__))), 'c18_hist.py')
 NPROC = int(os.environ.get('VERIF_JOBS', '0')) or min(12, os.cpu_count() or 4)
 
@@ -838,9 +838,12 @@ class Predictor:
     def __init__(self, eff, classes):
         self.eff = eff
         self.classes = classes      # name -> real class (for parameter binding)
+        #: anchored + auxiliary + EXTENDED classes (growth round: the receivers that used to be unjudged)
+        self.all = dict(eff.get('extended', {}))
+        self.all.update(eff['classes'])
 
     def method(self, cls, m):
-        c = self.eff['classes'].get(cls)
+        c = self.all.get(cls)
         return c['methods'].get(m) if c else None
 
     def allowed(self, pool, op):
@@ -872,7 +875,7 @@ class Predictor:
             out[op['o']] = {'*'}
             for a in list(op.get('a', [])) + list(op.get('k', {}).values()):
                 if isinstance(a, list) and len(a) == 2 and a[0] == 'ref':
-                    c = self.eff['classes'].get(pool_class(pool, a[1]))
+                    c = self.all.get(pool_class(pool, a[1]))
                     if c:
                         al = out.setdefault(a[1], set())
                         for mm, sm in c['methods'].items():
@@ -1089,6 +1092,216 @@ def date_list_checks(ctx, rng):
     ctx.count('vector vs scalar: curve zero_rate / cc_rate / fwd / fwd_rate / swap_rate / survival_prob on date lists', n)
 
 
+# --------------------------------------------------------------------------------------------- growth round: model ties
+def module_state_snapshot():
+    """digest of every module-level value and every class-level container of the loaded financepy modules"""
+    import hashlib
+    import pickle
+    import types
+    snap = {}
+
+    def dig(v):
+        try:
+            return hashlib.sha1(pickle.dumps(v, protocol=4)).hexdigest()
+        except Exception:  # noqa: BLE001
+            return None
+    for name, mod in list(sys.modules.items()):
+        if not (name == 'financepy' or name.startswith('financepy.')) or mod is None:
+            continue
+        rel = name.replace('.', '/') + '.py'
+        for k, v in list(vars(mod).items()):
+            if k.startswith('__'):
+                continue
+            if isinstance(v, type):
+                if getattr(v, '__module__', None) == name:
+                    for a, av in list(vars(v).items()):
+                        if isinstance(av, (list, dict, set)):
+                            d = dig(av) or repr((len(av), sorted(map(repr, av))))
+                            snap[(rel, f'{v.__name__}.{a}')] = d
+                continue
+            if isinstance(v, (types.ModuleType, types.FunctionType, types.BuiltinFunctionType)) or callable(v):
+                continue
+            d = dig(v)
+            if d is not None:
+                snap[(rel, k)] = d
+    return snap
+
+
+def module_state_check(ctx, eff, before):
+    """runtime side of `module_globals_written_are_exactly`: after everything this process has done (vector checks, date
+    lists, curves, the exotic `theta` calls) plus a table extension and a format change, the module-level values that
+    changed must be among the generated `module_state` names, and the date table / format MUST be seen to change"""
+    from financepy.utils.date import Date, set_date_format, DateFormatTypes
+    import financepy.utils.date as fdate
+    old = fdate.g_date_type_format
+    try:
+        set_date_format(DateFormatTypes.US_LONGEST if old != DateFormatTypes.US_LONGEST else DateFormatTypes.UK_LONG)
+        Date(1, 1, fdate.g_end_year + 3)
+        after = module_state_snapshot()
+    finally:
+        set_date_format(old)
+    allowed = {(r[0], r[3]) for r in eff.get('module_state', [])}
+    changed = sorted(k for k in before if k in after and before[k] != after[k])
+    ctx.count('module-level state: values digested before / after the in-process calls', len(before), len(changed),
+              sample={'changed': [list(k) for k in changed]})
+    bad = [k for k in changed if k not in allowed]
+    if bad:
+        ctx.violation('a module-level value changed during API calls and is not in the generated list of module state',
+                      {'changed': [list(k) for k in bad], 'allowed': sorted(map(list, allowed))}, clause='process-state')
+        ctx.broke('correspondence: module_state (tools/effects/extract.py) misses a module-level write that was observed')
+    for want in (('financepy/utils/date.py', 'g_end_year'), ('financepy/utils/date.py', 'g_dt_counter_list'),
+                 ('financepy/utils/date.py', 'g_date_type_format')):
+        if want not in changed:
+            ctx.broke(f'module-state observer is blind: {want[1]} was changed on purpose and not seen')
+
+
+def theta_bump_checks(ctx, rng, drivers_ok=True):
+    """`theta` of the exotic options (EquityOption.theta / FXOption.theta) moves the value_dt of the CALLER's curves and
+    sets it back: implementation vs the state machine of Model/C18x (Driver/C18 `TH`), and the property itself — the
+    curves and the next `value` must be what they were.  Known finding: on the last valid valuation date the second
+    valuation raises and the curves stay one day ahead."""
+    from financepy.utils.date import Date
+    from financepy.market.curves.discount_curve_flat import DiscountCurveFlat
+    from financepy.models.black_scholes import BlackScholes
+    from financepy.utils.global_types import OptionTypes, TouchOptionTypes
+    from financepy.products.equity.equity_digital_option import EquityDigitalOption, FinDigitalOptionTypes
+    from financepy.products.equity.equity_barrier_option import EquityBarrierOption, EquityBarrierTypes
+    from financepy.products.equity.equity_one_touch_option import EquityOneTouchOption
+    from financepy.products.equity.equity_chooser_option import EquityChooserOption
+    from financepy.products.equity.equity_compound_option import EquityCompoundOption
+    from financepy.products.fx.fx_barrier_option import FXBarrierOption, FinFXBarrierTypes
+    from financepy.products.fx.fx_one_touch_option import FXOneTouchOption
+
+    def fm(x):
+        return f'{x.d}-{x.m}-{x.y}'
+    model = BlackScholes(0.2)
+    ops, obs, cases = [], [], []
+    n = 0
+    for it in range(6 if ctx.quick() else 60):
+        ex = Date(rng.randint(1, 28), rng.randint(1, 12), rng.randint(2025, 2032))
+        far = ex.add_months(12)
+        prods = [
+            ('EquityDigitalOption', EquityDigitalOption(ex, 100.0, OptionTypes.EUROPEAN_CALL, FinDigitalOptionTypes.CASH_OR_NOTHING), 100.0),
+            ('EquityBarrierOption', EquityBarrierOption(ex, 100.0, EquityBarrierTypes.DOWN_AND_OUT_CALL, 60.0), 100.0),
+            ('EquityOneTouchOption', EquityOneTouchOption(ex, TouchOptionTypes.UP_AND_IN_CASH_AT_EXPIRY, 160.0, 10.0), 100.0),
+            ('EquityChooserOption', EquityChooserOption(ex, far, far, 100.0, 100.0), 100.0),
+            ('EquityCompoundOption', EquityCompoundOption(ex, OptionTypes.EUROPEAN_CALL, 5.0, far, OptionTypes.EUROPEAN_CALL, 100.0), 100.0),
+            ('FXBarrierOption', FXBarrierOption(ex, 1.1, 'EURUSD', FinFXBarrierTypes.UP_AND_OUT_CALL, 1.45, 252, 1e6, 'USD'), 1.1),
+            ('FXOneTouchOption', FXOneTouchOption(ex, TouchOptionTypes.UP_AND_IN_CASH_AT_EXPIRY, 1.4, 1e6), 1.1),
+        ]
+        for cname, prod, spot in prods:
+            def val(vd):
+                a, b = DiscountCurveFlat(vd, 0.03), DiscountCurveFlat(vd, 0.01)
+                try:
+                    return C18_canon(prod.value(vd, spot, a, b, model))
+                except Exception as e:  # noqa: BLE001
+                    return 'raise:' + type(e).__name__
+            # the last date on which value() returns (the model's `expiry`): the expiry date, or the day before where the
+            # formula divides by the time to expiry
+            last_ok = ex if not str(val(ex)).startswith('raise') else ex.add_days(-1)
+            if str(val(last_ok)).startswith('raise') or not str(val(last_ok.add_days(1))).startswith('raise'):
+                ctx.broke(f'theta model: cannot locate the last valid valuation date of {cname} (expiry {fm(ex)})')
+                continue
+            for back, off1, off2 in ((0, 0, 0), (1, 0, 0), (rng.randint(2, 400), 0, 0), (rng.randint(2, 400), rng.choice([-1, 1, 30]), 0),
+                                     (rng.randint(2, 400), 0, rng.choice([-1, 2])), (-1, 0, 0)):
+                vd = last_ok.add_days(-back)
+                c1, c2 = DiscountCurveFlat(vd.add_days(off1), 0.03), DiscountCurveFlat(vd.add_days(off2), 0.01)
+                b1, b2 = c1.value_dt, c2.value_dt
+                before = None
+                try:
+                    before = C18_canon(prod.value(vd, spot, c1, c2, model))
+                except Exception as e:  # noqa: BLE001
+                    before = 'raise:' + type(e).__name__
+                try:
+                    prod.theta(vd, spot, c1, c2, model)
+                    out = 'ret'
+                except Exception as e:  # noqa: BLE001
+                    out = 'raise'
+                a1, a2 = c1.value_dt, c2.value_dt
+                try:
+                    after = C18_canon(prod.value(vd, spot, c1, c2, model))
+                except Exception as e:  # noqa: BLE001
+                    after = 'raise:' + type(e).__name__
+                n += 1
+                ops.append(f'TH {int(last_ok.excel_dt)} {int(vd.excel_dt)} {int(b1.excel_dt)} {int(b2.excel_dt)}')
+                obs.append(f'{out} {int(a1.excel_dt)} {int(a2.excel_dt)}')
+                case = {'class': cname, 'expiry': fm(ex), 'history': [
+                    f'c1 = DiscountCurveFlat({fm(b1)}, 0.03); c2 = DiscountCurveFlat({fm(b2)}, 0.01)',
+                    f'{cname}.value({fm(vd)}, {spot}, c1, c2, BlackScholes(0.2)) -> {before}',
+                    f'{cname}.theta({fm(vd)}, {spot}, c1, c2, BlackScholes(0.2)) -> {out}',
+                    f'c1.value_dt = {fm(a1)}, c2.value_dt = {fm(a2)}',
+                    f'{cname}.value({fm(vd)}, {spot}, c1, c2, BlackScholes(0.2)) -> {after}']}
+                cases.append(case)
+                if (a1, a2) != (b1, b2) or after != before:
+                    # classifier: the call raised, on the last valid valuation date, with both curves anchored on it
+                    fid = 'C18/theta-exception-leaves-curve-date' if (out == 'raise' and back == 0 and off1 == 0 and off2 == 0 and
+                                                                      not str(before).startswith('raise')) else None
+                    ctx.violation('theta leaves the caller\'s curves on another valuation date: the same value() call differs afterwards',
+                                  case, finding=fid, clause='inputs-usable')
+    ctx.count('theta bump-and-restore of the caller\'s curves (7 exotic classes): value / theta / value', n, n,
+              sample=cases[0] if cases else None)
+    if drivers_ok and ops:
+        got = C.run_driver('C18', ops)
+        bad = [(o, a, b, c) for o, a, b, c in zip(ops, obs, got, cases) if a != b]
+        ctx.count('implementation vs model: exoticTheta state machine (Driver/C18 TH)', len(ops), len(ops))
+        if bad:
+            ctx.broke(f'correspondence: exoticTheta (Model/C18x) disagrees with the implementation on {len(bad)} cases, e.g. '
+                      f'{bad[0][0]}: implementation {bad[0][1]!r}, model {bad[0][2]!r}, {bad[0][3]["class"]}')
+
+
+def C18_canon(v):
+    import numpy as np
+    if isinstance(v, dict):
+        v = v.get('value', v.get('v', sorted(v.items())[0][1] if v else None))
+    try:
+        return float(np.asarray(v, dtype=float).ravel()[0]).hex()
+    except Exception:  # noqa: BLE001
+        return repr(v)
+
+
+def date_list_model_checks(ctx, rng, drivers_ok=True):
+    """the list branch of add_months / add_years (whole years) / add_tenor: implementation vs the loop model of
+    Model/C18x Part 6 run by Driver/C18 (about which Props/C18d proves list = map of the scalar model)"""
+    if not drivers_ok:
+        return
+    from financepy.utils.date import Date
+
+    def fmt(f):
+        try:
+            return ','.join(f'{x.d} {x.m} {x.y}' for x in f())
+        except Exception as e:  # noqa: BLE001
+            return 'E:' + type(e).__name__
+    ops, impl = [], []
+    units = {'D': 1, 'W': 2, 'M': 3, 'Y': 4}
+    for it in range(120 if ctx.quick() else 3000):
+        y = rng.randint(1902, 2150)
+        m = rng.randint(1, 12)
+        last = (datetime.date(y + (m == 12), (m % 12) + 1, 1) - datetime.timedelta(days=1)).day
+        d = rng.choice([last, last, min(29, last), min(30, last), 28, rng.randint(1, last)])
+        dt = Date(d, m, y)
+        ml = rng.choice([[1, 2, 3], [-1, 1, 13], [3, 2, 1], [1, 12, 13, 25], [0, 1], [11, 1],
+                         [rng.randint(-30, 60) for _ in range(rng.randint(1, 6))]])
+        ops.append(f'AML {d} {m} {y} ' + ' '.join(map(str, ml)))
+        impl.append(fmt(lambda: dt.add_months(list(ml))))
+        k = rng.randint(-30, 60)
+        ops.append(f'AMS {d} {m} {y} {k}')
+        impl.append(fmt(lambda: [dt.add_months(k)]))
+        yl = [rng.randint(-2, 12) for _ in range(rng.randint(1, 5))]
+        ops.append(f'AYL {d} {m} {y} ' + ' '.join(map(str, yl)))
+        impl.append(fmt(lambda: dt.add_years(list(yl))))
+        tl = [(rng.choice([1, 2, 3, 6, 12, 13, 18, -1, -6, 4]), rng.choice('DWMMYY')) for _ in range(rng.randint(1, 5))]
+        tl = [(max(-8, min(8, n_)) if u == 'Y' else n_, u) for n_, u in tl]
+        ops.append(f'ATL {d} {m} {y} ' + ' '.join(f'{n_} {units[u]}' for n_, u in tl))
+        impl.append(fmt(lambda: dt.add_tenor([f'{n_}{u}' for n_, u in tl])))
+    got = C.run_driver('C18', ops)
+    bad = [(o, a, b) for o, a, b in zip(ops, impl, got) if a != (b if not b.startswith('E:') else 'E:' + a[2:] if a.startswith('E:') else b)]
+    ctx.count('implementation vs model: Date.add_months / add_years / add_tenor on LISTS (Driver/C18)', len(ops), len(ops),
+              sample={'op': ops[0], 'implementation': impl[0], 'model': got[0]})
+    if bad:
+        ctx.broke(f'correspondence: list-valued date arithmetic (Model/C18x) disagrees with the implementation on {len(bad)} cases, '
+                  f'e.g. {bad[0][0]}: implementation {bad[0][1]!r}, model {bad[0][2]!r}')
+
+
 # --------------------------------------------------------------------------------------------- main
 def explore(ctx, hists, eff, label):
     """run histories shared / fresh, compare results and effects"""
@@ -1251,7 +1464,7 @@ def run(ctx):
     def lap(what):
         T.append(time.time())
         ctx.cov.setdefault('timing_s', {})[what] = round(T[-1] - T[-2], 1)
-    C.lean_stage(ctx, GEN, PROPS, DRIVERS)
+    drivers_ok = C.lean_stage(ctx, GEN, PROPS, DRIVERS)
     lap('lean')
     C.import_financepy()
     # compile everything the workers need once, into the source-hash-keyed Numba cache
@@ -1262,6 +1475,7 @@ def run(ctx):
         wh = [make_history(C.Rng(0, f'warm{j}')) for j in range(60)]
         c18_hist.run_shared({'mode': 'shared', 'histories': [{'pool': h['pool'], 'ops': h['ops']} for h in wh]})
     lap('import+warm')
+    mod_before = module_state_snapshot()
     eff = None
     try:
         eff = load_effects()
@@ -1292,13 +1506,18 @@ def run(ctx):
             break
     vector_checks(ctx, ctx.rng('vector'))
     lap('vector')
+    date_list_model_checks(ctx, ctx.rng('datelist-model'), drivers_ok)
+    theta_bump_checks(ctx, ctx.rng('theta'), drivers_ok)
+    if eff is not None and 'module_state' in eff:
+        module_state_check(ctx, eff, mod_before)
+    lap('model ties')
     ctx.assumptions += [
         'the effect extractor is intra-class: effects of calls made on OTHER objects (parameters, attribute-held objects) are covered only by the recorded call names (pcalls) and by the history exploration',
         'effects through NumPy array aliasing and inside Numba-compiled kernels are found only by the history exploration',
         'the two-phase tree-model API (build_tree then a query) is exercised as products use it (build and query in one call); a bare query after somebody else\'s build_tree is by design the last tree',
         'printing methods (__repr__, print_*) report the last valuation by design and are not treated as results, except str(Date) whose dependence on the global format is checked with the format as an explicit argument',
     ]
-    return C.finish(ctx, 'proof', 'lake build FinVerif.Props.C18a FinVerif.Props.C18b && lake env lean .cache/audit/Audit_C18.lean',
+    return C.finish(ctx, 'proof', 'lake build FinVerif.Props.C18a FinVerif.Props.C18b FinVerif.Props.C18c FinVerif.Props.C18d && lake env lean .cache/audit/Audit_C18.lean',
                     C.TRUSTED_BASE_COMMON + ['tools/effects/extract.py: the read-before-write / write sets it emits over-approximate what the methods do (checked against observed attribute changes on every explored call)'],
                     RULE)
 
